@@ -171,3 +171,21 @@ func safeInterface(rv reflect.Value) (out any) {
 }
 
 var _ = model.Null
+
+// newUnfolder creates an unfolder for the target (or for later SetTarget calls
+// with the given types): the user-unfolder option is only passed when one of
+// the types needs it, because an unfolder with options takes other lookup paths
+// than one without.
+func newUnfolder(target any, types ...reflect.Type) (*gotype.Unfolder, error) {
+	need := false
+	if target != nil {
+		need = gomodel.UsesUserUnfolder(reflect.TypeOf(target))
+	}
+	for _, t := range types {
+		need = need || gomodel.UsesUserUnfolder(t)
+	}
+	if need {
+		return gotype.NewUnfolder(target, gomodel.UnfoldOptions())
+	}
+	return gotype.NewUnfolder(target)
+}
